@@ -94,6 +94,25 @@ def bs(env):
            T.stack([p0 + (1 + (Q(j, k) if env.sym else j / k)) * v for j in range(2 * k + 1)], 0))
 
 
+for _num, _den in ((3, 10), (2, 5), (7, 10), (1, 4)):
+    def mk(num=_num, den=_den):
+        @obligation(f'C19.bspline.sample_times.{num}_{den}', functions=[f'{SPL}:bspline'], max_paths=16, timeout=400)
+        def bs_times(env):
+            """intervals that do not divide 1: every segment is sampled at the multiples j*interval < 1 of the interval (not at evenly
+            spread points), so a constant-velocity motion is reproduced at the times (segment + 1) + j * interval, plus the end point"""
+            import math
+            sp = env.load(SPL); pp = env.load('pypose'); T = env.T
+            itv = Q(num, den) if env.sym else num / den
+            k = math.ceil(den / num)                      # multiples of the interval in [0, 1)
+            p0, v = env.vec('p0', 3), env.vec('v', 3)
+            Xl = trans_poses(env, pp, [p0 + i * v for i in range(5)])
+            out = sp.bspline(Xl, interval=itv)
+            env.holds('sample count is (N - 3) k + 1', out.shape[-2] == 2 * k + 1)
+            times = [1 + seg + j * itv for seg in range(2) for j in range(k)] + [3]
+            env.eq('constant-velocity motion is reproduced at the multiples of the interval', raw(out)[:, 0:3], T.stack([p0 + t * v for t in times], 0))
+    mk()
+
+
 @obligation('C19.bspline.equivariance', functions=[f'{SPL}:bspline'], max_paths=16, timeout=400)
 def bs_eq(env):
     sp = env.load(SPL); pp = env.load('pypose'); op = env.load(OPS); T = env.T
